@@ -328,9 +328,17 @@ def _drive_web(case, reactive=None):
         _spy_queue(h, out)
         ph = 'first'
         td = False
-        for s in case['segs']:
+        for k_, s in enumerate(case['segs']):
             if ph in ('closing', 'raised', 'other'):
                 break
+            if k_ % 2 == 1:
+                # readable, but the (TLS) record is incomplete: SSLWantReadError is retried later
+                cs.script_recv(('wantRead',))
+                r0 = w.tick(h, [cs.fileno()], [])
+                if r0 is not False:
+                    ph = 'raised' if isinstance(r0, tuple) else 'closing'
+                    td = True
+                    break
             cs.script_recv(('data', bytes.fromhex(s)))
             r = w.tick(h, [cs.fileno()], [])
             if isinstance(r, tuple):
@@ -706,9 +714,15 @@ def oracle_fwd(case):
                         moved = True
                 if not moved:
                     return
-        for s_ in meta['segs']:
+        for k_, s_ in enumerate(meta['segs']):
             if st['torn'] or st['origin_closed'] or h.must_flush_before_shutdown:
                 break
+            if k_ % 2 == 1:
+                # readable, but the (TLS) record is not complete yet: retried later, nothing else happens
+                cs.script_recv(('wantRead',))
+                if w.tick(h, [cs.fileno()], []) is not False:
+                    st['torn'] = True
+                    break
             cs.script_recv(('data', bytes.fromhex(s_)))
             r = w.tick(h, [cs.fileno()], [])
             if r is not False:
@@ -986,10 +1000,12 @@ def fwd_ticks(rng, segs, nresp, benign=True):
             ticks.append(['m' + bits, ['d', {'hex': s.hex()}], gen_send(rng, 0.0), ur, gen_send(rng, 0.0)])
             first = False
         elif ups and x < 0.8:
-            bits = '0' + rng.choice('01') + '1' + rng.choice('01')
+            # (client bit set with 'w': the socket is readable but recv raises SSLWantReadError — an
+            # incomplete TLS record; it must be retried later, not treated as a failure)
+            bits = rng.choice('001') + rng.choice('01') + '1' + rng.choice('01')
             ticks.append(['m' + bits, 'w', gen_send(rng, 0.0), ['d', {'hex': ups.pop(0).hex()}], gen_send(rng, 0.0)])
         else:
-            bits = '0' + rng.choice('01') + '0' + rng.choice('011')
+            bits = rng.choice('001') + rng.choice('01') + '0' + rng.choice('011')
             ticks.append(['m' + bits, 'w', rng.choice([big, ['s', 3], 'b']), 'w', rng.choice([big, big, ['s', 7], 'b'])])
     for _ in range(rng.randrange(0, 4)):
         ticks.append(['m0101', 'w', big, 'w', big])
